@@ -19,7 +19,8 @@ def campaign(rep, pid, tier, seed, failures=False, checkpoints=False):
             p_ext = 0.03 if (failures and j % 4 == 1) else 0.0
             delete = checkpoints or j % 2 == 0
             tr, out = R.run(kind, s, nw, started_budget=6 + (j % 5), p_fail=p_fail, p_ext=p_ext, delete_checkpoints=delete,
-                            checkpointing=(j % 3 != 1), maxfail=2 + (j % 3), async_sched=(j % 7 != 3), wait=(j % 6 == 5))
+                            checkpointing=(j % 3 != 1), maxfail=2 + (j % 3), async_sched=(j % 7 != 3), wait=(j % 6 == 5),
+                            sjwd=(j % 4 != 2))
             tr["id"] = len(traces) + 1
             traces.append(tr)
             meta.append({"scheduler": kind, "seed": s, "n_workers": nw, "p_fail": p_fail, "p_ext": p_ext, "delete_checkpoints": delete})
@@ -39,7 +40,7 @@ def campaign_one(rep, pid, tier, seed, kind, n):
         s = seed * 7919 + 31 * j + 5
         nw = 1 + (j % 4)
         tr, out = R.run(kind, s, nw, started_budget=7 + (j % 6), delete_checkpoints=True, checkpointing=True,
-                        async_sched=(j % 3 != 2), wait=(j % 5 == 4))
+                        async_sched=(j % 3 != 2), wait=(j % 5 == 4), sjwd=(j % 4 != 3))
         tr["id"] = len(traces) + 1
         traces.append(tr)
         meta.append({"scheduler": kind, "seed": s, "n_workers": nw, "p_fail": 0.0, "p_ext": 0.0, "delete_checkpoints": True})
